@@ -23,7 +23,7 @@ def litsOf (fn kind : String) : List Bytes :=
 /-- the writers classified `constant` (and the constant pieces of `Series` and `Tail`), with the index of the piece -/
 def constantPieces : List (String × String × Nat) :=
   [("MiscController.Rules", "write", 0), ("MiscController.Metadata", "write", 0), ("PromQueryLabelsController.Metadata", "write", 0),
-   ("QueryLabelsService.Values", "send", 0), ("QueryLabelsService.Series", "send", 0), ("QueryRangeController.Tail", "ws", 0)]
+   ("QueryLabelsService.values", "send", 0), ("QueryLabelsService.Series", "send", 0), ("QueryLabelsService.series", "send", 0), ("QueryRangeController.Tail", "ws", 0)]
 
 theorem constants_parse :
     ∀ c ∈ constantPieces, ((litsOf c.1 c.2.1)[c.2.2]?.bind parseDoc).isSome = true := by decide +kernel
@@ -31,8 +31,9 @@ theorem constants_parse :
 /-- the literal pieces of the modelled encoders are the bytes the models use -/
 theorem literals_checked :
     litsOf "QueryLabelsService.GenericLabelReq" "send" = [labelsPre, [44], [93, 125]] ∧
-    litsOf "QueryLabelsService.Series" "send" = [seriesEmptyDoc, seriesPre, [44], [93, 125]] ∧
-    litsOf "QueryLabelsService.Values" "send" = [valuesEmptyDoc] ∧
+    litsOf "QueryLabelsService.series" "send" = [seriesEmptyDoc, seriesPre, [44], [93, 125]] ∧
+    litsOf "QueryLabelsService.Series" "send" = [seriesEmptyDoc] ∧
+    litsOf "QueryLabelsService.values" "send" = [valuesEmptyDoc] ∧
     litsOf "TempoController.Tags" "write" = [tagsPre, [44], [93, 125]] ∧
     litsOf "TempoController.Values" "write" = [tagValuesPre, [44], [93, 125]] ∧
     litsOf "TempoController.Search" "write" = [searchPre, [44], [93, 125], searchPre, [44], [93, 125]] ∧
